@@ -295,7 +295,9 @@ def bare_stage_equivalence(rng):
     bad = []
     n = 0
     specs = [('poly', 2, False), ('bilinear',), ('const',), ('delay', 1, 1), ('rbf', 1, 2), ('kernel', 1, 3),
-             ('sk', 0), ('sk', 2), ('angle', (1, 0), False)]
+             ('sk', 0), ('sk', 2), ('angle', (1, 0), False),
+             # the composite that is a lifting function itself, row-wise and with a delay in a branch
+             ('split', [('poly', 2, False)], [('sk', 0)]), ('split', [('delay', 1, 0)], [])]
     for spec in specs:
         for dt in (np.int64, np.int16, np.float32, np.float64):
             for ep in (False, True):
